@@ -83,3 +83,24 @@ Fixpoint body_vars (b : body) : list str :=
   | BAnd a b | BOr a b | BIf a b => body_vars a ++ body_vars b
   | BNot a => body_vars a
   end.
+
+Definition isif (b:body) := match b with BIf _ _ => true | _ => false end.
+
+(* induction principle that treats (c -> t ; e) as one construct *)
+Lemma body_ind' (P:body->Prop) :
+  (forall f args, P (BCall f args)) -> P BTrue -> P BFail -> P BCut -> (forall l, P (BMark l)) ->
+  (forall a b, P a -> P b -> P (BAnd a b)) ->
+  (forall a b, isif a = false -> P a -> P b -> P (BOr a b)) ->
+  (forall c t e, P c -> P t -> P e -> P (BOr (BIf c t) e)) ->
+  (forall c t, P c -> P t -> P (BIf c t)) ->
+  (forall a, P a -> P (BNot a)) -> forall b, P b.
+Proof.
+  intros Hc Ht Hf Hcut Hci Hand Hor Hite Hif Hnot b.
+  enough (H: P b /\ match b with BIf c t => P c /\ P t | _ => True end) by apply H.
+  induction b; try (split; auto; fail).
+  - split; [apply Hand; tauto|exact Logic.I].
+  - split; [|exact Logic.I]. destruct b1; try (apply Hor; [reflexivity|tauto|tauto]).
+    apply Hite; tauto.
+  - split; [apply Hif; tauto|tauto].
+  - split; [apply Hnot; tauto|exact Logic.I].
+Qed.
